@@ -258,8 +258,8 @@ def cbmc_cmd(ctx, q, b, extra=None):
     cmd = ['cbmc', q.harness, '-I', LIB, '-I', os.path.join(VERIF, 'harness'), '-I', os.path.dirname(q.harness),
            '-DVF_UNIT_C="%s"' % b['c'], '-DWITNESS'] + cdefs(q) + ['-D%s=%s' % kv for kv in sorted(q.cbmc_defines.items())]
     cmd += ['--unwind', str(q.unwind), '--unwinding-assertions', '--drop-unused-functions', '--no-malloc-may-fail', '--object-bits', '12']
-    for us in q.unwindset:
-        cmd += ['--unwindset', us]
+    if q.unwindset:
+        cmd += ['--unwindset', ','.join(q.unwindset)]
     if q.solver == 'kissat':
         cmd += ['--external-sat-solver', 'kissat']
     elif q.solver in ('cadical', 'minisat2', 'glucose'):
@@ -309,7 +309,12 @@ def replay_real(ctx, q, bins, inputs, tag):
     if 'AddressSanitizer' in err or 'runtime error' in err:
         m = re.search(r'(ERROR: AddressSanitizer: [^\n]*|[^\n]*runtime error: [^\n]*)', err)
         san = m.group(1) if m else 'sanitizer report'
-    assume_failed = 'REPLAY-ASSUME-FAILED' in out or 'REPLAY-RANGE' in out
+    # an assumption that fails only AFTER a check already failed (e.g. in a later slice of the harness that the CBMC
+    # query did not select) does not invalidate the reproduction
+    lines_ = out.splitlines()
+    first_fail = next((i for i, l in enumerate(lines_) if l.startswith('ASSERT-FAIL ')), None)
+    first_assume = next((i for i, l in enumerate(lines_) if l.startswith('REPLAY-ASSUME-FAILED') or l.startswith('REPLAY-RANGE')), None)
+    assume_failed = first_assume is not None and (first_fail is None or first_assume < first_fail) and not san
     meta = {'property': ctx.prop, 'query': q.name, 'unit': q.unit.name, 'harness': os.path.relpath(q.harness, VERIF) if q.harness.startswith(VERIF) else q.harness,
             'defines': q.defines, 'known_excluded': q.known, 'inputs': inputs, 'cbmc_failed': tag,
             'real_failed_checks': fails, 'real_sanitizer': san, 'real_stdout': out[-3000:], 'real_stderr': err[-3000:],
